@@ -136,6 +136,22 @@ def run_prop(pid, tier, seed, text, known=None):
             tr = c['failing_traces'].get(tid, {})
             v.violation({'clauses': mine, 'trace': tid, 'meta': c['meta'].get(tid), 'elems': tr.get('elems'), 'load': tr.get('load'),
                          'ctrls': tr.get('ctrls'), 'stops': tr.get('stops')})
+    if pid == 'C11':
+        from . import grid_drv
+        gev = grid_drv.events(tier, seed)
+        gres = validate('Trace_Grid', gev)
+        v.states += gres.states; v.transitions += gres.transitions
+        v.traces += len(gev); v.evaluations += len(gev)
+        gby = {e['id']: e for e in gev}
+        for tid, fails in gres.fails.items():
+            if fails:
+                e = gby[tid]
+                v.violation({'clauses': fails, 'grid_case': {k: e[k] for k in ('id', 'm', 'e', 'n', 'unit', 'T_as', 'dt', 'T', 'outcome')},
+                             'instants_before': len(e['before']), 'instants_after': len(e['after']),
+                             'last_after': e['after'][-1] if e['after'] else None})
+        v.extra['enumerated_grid_runs'] = len(gev)
+        v.extra['enumeration'] = 'dt = m*10^-e with every m in 1..99, e in 0..3, n in 2..60, T as float(dt)*n or as decimal literal, unit in {sec,min,hour,ms}; half of the cases continued by a second run with its own (m,e,n,unit)'
+        v.sample({k: gev[0][k] for k in ('id', 'm', 'e', 'n', 'unit', 'T_as')} | {'instants': len(gev[0]['after'])})
     v.rule = text + ' | shared campaign: seeded random chains of 2..12 elements (spur / helical / worm in both orientations / joints / flywheels, every subset of optional gear data), ' \
         'motors with and without current data, loads (constant below/above stall, negative, speed-, position-, time-dependent with a step), initial speeds of either sign, ' \
         'decimal dt, schedules run / continue (other time units) / reset / rerun on the same or a new Solver, rule sets of 0..4 rules, stop conditions; half of the traces with every input ' \
